@@ -167,7 +167,11 @@ func runHistory(h []step) (violation string, sig string, interesting bool) {
 			panicked = fmt.Sprintf("FinalizeIndex(c%d,o%d,a%d) panicked: %v", c, o, a, out.Panic)
 			return nil, fmt.Errorf("panic: %v", out.Panic)
 		}
+		ret := id
 		id = append([]byte{}, id...)
+		for i := range ret {
+			ret[i] = 0xA5 // the returned ID is the caller's: it wipes / re-uses that buffer
+		}
 		for _, b := range args {
 			for i := range b {
 				b[i] = 0x5A
